@@ -739,6 +739,14 @@ def is_indeterminate_form(e: Expr, conds: Conditions) -> bool:
             # 0 * INF or INF * 0
             if l[0].is_zero() and is_INF(l[1]) or l[1].is_zero() and is_INF(l[0]):
                 return True
+        elif body.is_divides():
+            # 0 / 0 (the normaliser would silently turn 0 / e into 0)
+            den = normalize(body.args[1].subst(var, lim), conds)
+            try:
+                if den.is_constant() and expr.eval_expr(den) == 0:
+                    return True
+            except (NotImplementedError, ZeroDivisionError, ValueError):
+                return True
         elif body.is_fun():
             if body.func_name in ('sin', 'cos'):
                 a0 = body.args[0]
